@@ -197,6 +197,13 @@ FIXED = {"atlas": ATLAS, "cms_aod": CMS_AOD, "cms_miniaod": CMS_MINIAOD}
 BACKENDS = ["atlas", "cms_aod", "cms_miniaod"]
 
 
+# two user headers that share a file name (one per package directory), for plug-ins that each need their own
+USER_HEADERS = {"PkgA/helpers.h": "#pragma once\nnamespace pkga { inline double twice(double x) { return 2 * x; } }\n",
+                "PkgB/interface/helpers.h": "#pragma once\nnamespace pkgb { inline double thrice(double x) { return 3 * x; } }\n"}
+for _s in FIXED.values():
+    _s.setdefault("extra_headers", {}).update(USER_HEADERS)
+
+
 def fixed(backend: str) -> Dict[str, Any]:
     return FIXED[backend]
 
